@@ -429,6 +429,22 @@ class Model(object):
             tot += (i % (ln + 1)) + 100
         return self.expect((tot,))
 
+    # ---- C subject: structs passed and returned by value / pointer (no ownership involved)
+    def op_pair_sum(self, i, d, _t):
+        return self.expect((i * 10 + d,))
+
+    def op_pair_ptr(self, i, d, _t):
+        return self.expect((i * 100 + d,))
+
+    def op_pair_out(self, _a, _b, _t):
+        return self.expect((7, 5))
+
+    def op_pair_ret(self, i, d, _t):
+        return self.expect((i, d * 2))
+
+    def op_pair_ret_ptr(self, i, d, _t):
+        return self.expect((i, d * 2))
+
     def op_ref_item(self, s, _b, _t):
         if self.lib_static is None:
             self.lib_static = self.new_obj(7001, owner="library")
@@ -510,6 +526,10 @@ def gen_op(rng, model, enabled, uniq):
         return [name, rng.choice([len(text) + 1, len(text) + 2, 20, 21, 33]), 0, text]
     if name == "char_arr":
         return [name, rng.choice([0, 1, 2, 3, 6]), rng.choice([1, 2, 4, 9])]
+    if name in ("pair_sum", "pair_ptr", "pair_ret", "pair_ret_ptr"):
+        return [name, rng.randrange(50), rng.randrange(9)]
+    if name == "pair_out":
+        return [name]
     if name == "vec_str_count":
         return [name, rng.choice([0, 1, 2, 5]), rng.choice([1, 3, 8])]
     if name in ("arr_new", "arr_pat"):
@@ -546,7 +566,15 @@ NOT_PY = ["copy_item", "vec_inc", "vec_str_count", "cap_delete", "cap_scope", "c
 C_ONLY = ["item_release", "cstr_ref", "cstr_lib", "cstr_owned", "cstr_in", "cstr_out", "cstr_inout"]
 
 
+C_SUBJECT_OPS = ["char_out", "char_ret", "char_inout", "char_grow", "char_arr", "arr_lib"]
+PAIR_OPS = ["pair_sum", "pair_ptr", "pair_out", "pair_ret", "pair_ret_ptr"]
+
+
 def ops_for(driver):
+    if driver == "cc":
+        return list(C_SUBJECT_OPS)
+    if driver == "fc":
+        return list(C_SUBJECT_OPS) + ["arr_sum"] + PAIR_OPS
     if driver == "py":
         return [o for o in OPS_COMMON if o not in NOT_PY] + PY_ONLY
     if driver == "c":
